@@ -279,6 +279,18 @@ class PathEval:
         else:
             st.env[l] = ("upd", old, tuple(fs), val)
 
+    _STD_VARIANTS = {"std::option::Option": ("None", "Some"), "std::result::Result": ("Ok", "Err"),
+                     "std::ops::ControlFlow": ("Continue", "Break"), "std::cmp::Ordering": None}
+
+    def _variant_index(self, adt_expr):
+        """Discriminant of an ("adt", path, variant, ..) expression when it is known (std Option/Result/ControlFlow; local enums may
+        carry explicit discriminants the expression does not record, so they are left undecided)."""
+        path, var = adt_expr[1], adt_expr[2]
+        names = self._STD_VARIANTS.get(path)
+        if names:
+            return names.index(var) if var in names else None
+        return None
+
     # ---- walking
     def run(self, start=0, stop_at=()):
         """Summaries of all paths from `start` to a return - or, with `stop_at`, to the first of those blocks (the summary
@@ -370,6 +382,10 @@ class PathEval:
                     if neg:
                         f_t, t_t = t_t, f_t
                     branches = [((atom, pol), t_t), ((atom, not pol), f_t)]
+                elif e[0] == "discr" and e[1][0] == "adt" and self._variant_index(e[1]) is not None:
+                    # the discriminant of a value built on this very path: one feasible arm
+                    bb = dict(arms).get(self._variant_index(e[1]), t["otherwise"])
+                    continue
                 elif e[0] == "discr":
                     for v, tg in arms:
                         branches.append(((("discr", e[1], v), True), tg))
